@@ -103,6 +103,9 @@ class World:
         if same:
             self.links['pixel'] = [LinkSame(a, b) for a, b in zip(d0.pixel_component_ids, d1.pixel_component_ids)]
         self.active_links = set()
+        if 'links0' not in plan and 'leaves' not in plan:
+            k0 = rng.random()
+            plan = dict(plan, links0=[0] if k0 < 0.4 else (['chainA', 'chainB'] if k0 < 0.55 else []))
         for k in plan.get('links0', []):
             self.dc.add_link(self.links[k])
             self.active_links.add(k)
@@ -130,6 +133,21 @@ class World:
             if rng.random() < 0.4:
                 self.leaves.append(S.RangeSubsetState(0.5, 2.5, d1.id['w']))
                 self.leaf_kinds.append('CrossRange')
+            if self.active_links:
+                # every kind of state that reads attribute values, over an attribute of the OTHER dataset that reaches this one
+                # through a link (its values follow the parent attribute d.x)
+                from glue.core import roi as RO
+                u = d1.id['u']
+                cross = [('CrossRoi', lambda: S.RoiSubsetState(u, d0.id['y'], RO.RectangularROI(-0.5, 2.6, -0.7, 3.4))),
+                         ('CrossCategory', lambda: S.CategorySubsetState(u, [rng.choice([0, 1, 2]), 3])),
+                         ('CrossMultiRange', lambda: S.MultiRangeSubsetState([(-1.5, 0.5), (2.5, 4.5)], u)),
+                         ('CrossFloodFill', lambda: S.FloodFillSubsetState(d0, u, tuple(rng.randrange(n_) for n_ in d0.shape), rng.choice([1.3, 2.0])))]
+                for kind, f in rng.sample(cross, rng.randint(1, 3)):
+                    try:
+                        self.leaves.append(f())
+                        self.leaf_kinds.append(kind)
+                    except Exception:
+                        pass
         # selections
         self.specs = list(plan['specs']) if 'specs' in plan else None
         if self.specs is None:
@@ -434,9 +452,35 @@ def show(o):
     return x.astype(int).ravel().tolist() if x.dtype == bool else x.ravel().tolist()
 
 
-def do_request(W, op):
-    """run one request on world W; returns (outcome, model request or None)"""
+def rebuild(state):
+    """a freshly CONSTRUCTED state with the current parameters of `state`: replaying the mutations on newly built objects is not enough
+    for states that compute and remember something when they are constructed (FloodFillSubsetState fills at construction)"""
+    from glue.core.subset import MultiOrState
+    if hasattr(state, 'states'):
+        return MultiOrState([rebuild(c) for c in state.states])
+    if hasattr(state, 'state1'):
+        if state.state2 is None:
+            return type(state)(rebuild(state.state1))
+        return type(state)(rebuild(state.state1), rebuild(state.state2))
+    return state.copy()
+
+
+def do_request(W, op, fresh=False):
+    """run one request on world W; returns (outcome, model request or None).  fresh: the selection is constructed anew first"""
     k = op[0]
+    if fresh and k in ('eval', 'stat', 'hist'):
+        sp, ob0 = W.target(op[1])
+        try:
+            ob = rebuild(ob0)
+        except Exception as e:
+            return ('err', type(e).__name__), None
+        d = W.datas[op[2]]
+        if k == 'eval':
+            v = W.views[op[2]][op[3]][0]
+            return outcome(lambda: d.get_mask(ob, view=v)), None
+        if k == 'stat':
+            return outcome(lambda: d.compute_statistic(op[4], d.id[op[3]], subset_state=ob)), None
+        return outcome(lambda: d.compute_histogram([d.id[op[3]]], range=[[-2.5, 6.5]], bins=[op[4]], subset_state=ob)), None
     if k == 'eval':
         _, tgt, di, vi, via, form = op
         sp, ob = W.target(tgt)
@@ -551,7 +595,7 @@ def run_history(R, case, ctab, check_fresh=True):
                 continue
             v = FW.views[di][vi][0]
             with isolated_caches():
-                o = outcome(lambda: fl.to_mask(FW.datas[di], v))
+                o = outcome(lambda: fl.copy().to_mask(FW.datas[di], v))
             if o[0] == 'ok' and (not isinstance(o[1], np.ndarray) or o[1].dtype != bool):
                 o = ('err', 'NotAMask')
             fresh_tab[key] = o
@@ -574,7 +618,7 @@ def run_history(R, case, ctab, check_fresh=True):
             if len(live_leaves) != len(fresh_leaves):
                 raise RuntimeError('fresh world has a different structure')
             mp = {id(a): b for a, b in zip(live_leaves, fresh_leaves)}
-            o, freq = do_request(FW, op)
+            o, freq = do_request(FW, op, fresh=True)
         return o, FW, (lambda l: mp[id(l)])
 
     def classify(t, op, live, fresh, req):
@@ -797,7 +841,7 @@ def random_history(rng, W, n):
         elif k < 0.70:
             ops.append(('update_components', 0 if rng.random() < 0.8 else 1, rng.randrange(1000)))
         elif k < 0.75:
-            ops.append(('update_values', 0, rng.randrange(1000), rng.random() < 0.5))
+            ops.append(('update_values', 0 if rng.random() < 0.8 else 1, rng.randrange(1000), rng.random() < 0.5))
         elif k < 0.83:
             ops.append(('move_to', tgt(), rng.choice([-1.5, 1.0, 2.5])))
         elif k < 0.88:
@@ -919,7 +963,10 @@ def exhaustive_plan():
         x, y = d0.id['x'], d0.id['y']
         return [S.InequalitySubsetState(x, 1, operator.gt), S.InequalitySubsetState(x, 3, operator.lt),
                 S.RangeSubsetState(0.5, 2.5, y), S.RoiSubsetState(x, y, RO.RectangularROI(-0.5, 2.5, -0.5, 2.5)),
-                S.InequalitySubsetState(d1.id['u'], 1, operator.ge)]
+                S.InequalitySubsetState(d1.id['u'], 1, operator.ge),
+                # keyed cache of the flood fill over a DERIVED attribute (z = x + y), over a parsed one and over a linked one (u <- x)
+                S.FloodFillSubsetState(d0, d0.id['z'], (3,), 1.5), S.InequalitySubsetState(d0.id['p'], 4, operator.gt),
+                S.FloodFillSubsetState(d0, d1.id['u'], (3,), 1.6), S.FloodFillSubsetState(d0, d0.id['p'], (4,), 1.4)]
     def make_d0():
         from glue.core import Data
         from glue.core.component import CategoricalComponent
@@ -929,10 +976,14 @@ def exhaustive_plan():
         d.add_component(np.array([0.0, 1.0, 2.0, 3.0, 4.0, 0.0, 1.0, 2.0]), 'k')
         d.add_component(CategoricalComponent(np.array(list('abcaabca'))), 'c')
         d['z'] = d.id['x'] + d.id['y']
+        from glue.core.component_id import ComponentID
+        from glue.core.parse import ParsedCommand, ParsedComponentLink
+        d.add_component_link(ParsedComponentLink(ComponentID('p', parent=d), ParsedCommand('{a} * 2 + 1', {'a': d.id['x']})))
         return d
     return {'ndim': 1, 'same_shape': True, 'leaves': leaves, 'make_d0': make_d0, 'links0': [0],
-            'specs': [('and', ('leaf', 0), ('leaf', 1)), ('not', ('leaf', 2)), ('multi', [('leaf', 3), ('leaf', 4)])],
-            'attached': [True, False, True]}
+            'specs': [('and', ('leaf', 0), ('leaf', 1)), ('not', ('leaf', 2)), ('multi', [('leaf', 3), ('leaf', 4)]),
+                      ('and', ('leaf', 5), ('leaf', 6)), ('xor', ('leaf', 7), ('leaf', 8))],
+            'attached': [True, False, True, False, True]}
 
 
 def links_plan():
@@ -1010,14 +1061,15 @@ def stream_reroute(R, ctab):
 def stream_exhaustive(R, ctab):
     plan = exhaustive_plan()
     alphabet = [('eval', ('tree', 0, 0), 0, 0, 'data', FKW), ('eval', ('tree', 1, 0), 0, 0, 'state', FPOS), ('eval', ('tree', 2, 0), 0, 0, 'subset', FKW),
-                ('update_components', 0, 1), ('update_values', 0, 2, True), ('move_to', ('tree', 1, 0), 1.0), ('move_to', ('tree', 2, 1), 1.0),
+                ('eval', ('tree', 3, 0), 0, 0, 'data', FKW), ('stat', ('tree', 4, 0), 0, 'y', 'sum'),
+                ('update_components', 0, 2), ('update_values', 0, 2, True), ('move_to', ('tree', 1, 0), 1.0), ('move_to', ('tree', 2, 1), 1.0),
                 ('setattr', ('tree', 0, 1), 0), ('remove_link', 0), ('add_link', 0),
                 ('remove_component', 0, 'y'), ('replace_component', 0, 'x', 3)]
     L = R.pick(3, 4)
     hs = []
     for n in range(1, L + 1):
         for h in itertools.product(alphabet, repeat=n):
-            if any(o[0] == 'eval' for o in h) and h[-1][0] == 'eval':
+            if h[-1][0] in ('eval', 'stat'):
                 hs.append(h)
     full = len(hs)
     limit = R.pick(900, 3500)
@@ -1028,8 +1080,8 @@ def stream_exhaustive(R, ctab):
     for k in range(0, len(cases), 300):
         process(R, cases[k:k + 300], ctab, 'exhaustive')
     R.stream('exhaustive', cases=len(cases), exhaustive=len(cases) == full,
-             bound='%d of the %d histories of length <= %d that end in an evaluation, over 3 evaluations ((x>1)&(x<3) attached, ~range free, '
-                   'multi-or(roi, cross-dataset inequality) attached) and 9 mutations (remove_component y, add_component replacing x, update_components, update_values_from_data with a new shape, move_to on two '
+             bound='%d of the %d histories of length <= %d that end in an evaluation, over 5 requests ((x>1)&(x<3) attached, ~range free, '
+                   'multi-or(roi, cross-dataset inequality) attached, floodfill(derived z)&(parsed p>4), sum over floodfill(linked u)^floodfill(parsed p)) and 9 mutations (remove_component y, add_component replacing x, update_components, update_values_from_data with a new shape, move_to on two '
                    'selections, a setter inside a composite, remove/add the identity link, active at the start); a hub listener evaluates during every values update' % (len(cases), full, L))
 
 
